@@ -34,9 +34,88 @@ def tasks(tier, seed):
     else:
         out = [('m2', m.name) for m in spec_table.METHODS]
     out += [('h',) + tuple(t) for t in corpus.header_tasks(tier)]
-    out += [('names',)]
+    out += [('names',), ('subclasses',)]
     out += [('order', v) for v in ORDERS]
     return out
+
+
+SUBCLASS_KINDS = ['plain', 'annotated attribute', 'annotations read once',
+                  'own constructor', 'subclass of a subclass']
+
+
+def make_subclass(cls, kind):
+    """An application's subclass of a library class: it adds bookkeeping of
+    its own, never a wire argument, so the mapping view is the parent's."""
+    name = 'App' + cls.__name__
+    if kind == 'plain':
+        return type(name, (cls,), {})
+    if kind == 'annotated attribute':
+        return type(name, (cls,), {'__annotations__': {'trace_id': str},
+                                   'trace_id': None})
+    if kind == 'annotations read once':
+        sub = type(name, (cls,), {})
+        getattr(sub, '__annotations__', None)
+        return sub
+    if kind == 'own constructor':
+        def __init__(self, *args, **kwargs):
+            cls.__init__(self, *args, **kwargs)
+            self.note = 'mine'
+        return type(name, (cls,), {'__init__': __init__,
+                                   '__annotations__': {'note': str}})
+    return type(name + '2', (make_subclass(cls, 'annotated attribute'),),
+                {'__annotations__': {'extra': int}, 'extra': 0})
+
+
+def check_subclasses(ctx):
+    p = lib.pamqp()
+    targets = [(m.name, corpus.lib_class_by_name(m),
+                [a[0] for a in m.args], [a[1] for a in m.args],
+                dict(zip([a[0] for a in m.args], corpus.nondefault_vector(m))))
+               for m in spec_table.METHODS]
+    targets.append(('Basic.Properties', p.commands.Basic.Properties,
+                    [a[0] for a in spec_table.PROPERTIES],
+                    [a[1] for a in spec_table.PROPERTIES],
+                    corpus.props_for_subset(0x1555)))
+    for label, cls, names, types, kwargs in targets:
+        try:
+            parent_bytes = cls(**kwargs).marshal()
+        except Exception:  # noqa
+            parent_bytes = None
+        for kind in SUBCLASS_KINDS:
+            ctx.case(('subclass', label, kind), True,
+                     sample={'class': label, 'subclass': kind})
+            ctx.valid()
+            try:
+                sub = make_subclass(cls, kind)
+                obj = sub(**kwargs)
+                ctx.calls()
+            except Exception:  # noqa - refusing to be subclassed is allowed
+                ctx.outcome('refused')
+                continue
+            bad = mapping_view(obj, names, types, label)
+            for n in names:
+                try:
+                    if n in kwargs and obj[n] is not kwargs[n] and \
+                            canon(obj[n]) != canon(kwargs[n]):
+                        bad.append('{}[{!r}] is {} not the value given'.format(
+                            label, n, short(obj[n], 40)))
+                except Exception as exc:  # noqa
+                    bad.append('[{!r}] raised {!r}'.format(n, exc))
+            try:
+                if parent_bytes is not None and \
+                        obj.marshal() != parent_bytes:
+                    bad.append('encodes differently from the parent class')
+            except Exception as exc:  # noqa
+                bad.append('marshal raised {!r}'.format(exc))
+            if bad:
+                ctx.outcome('mismatch')
+                ctx.violation('mapping|subclass|{}|{}'.format(label, kind),
+                              'application subclass ({}) of {}: {}'.format(
+                                  kind, label, '; '.join(bad)[:500]),
+                              {'kind': 'subclasses'},
+                              'the parent\'s mapping view', bad[:6])
+            else:
+                ctx.outcome('ok')
 
 
 ORDERS = ['base-first', 'props-first', 'reverse', 'fewest-arguments-first',
@@ -349,6 +428,8 @@ def run(task, ctx):
     kind = task[0]
     if kind == 'order':
         check_order(ctx, task[1])
+    elif kind == 'subclasses':
+        check_subclasses(ctx)
     elif kind == 'names':
         for what, arg in name_keyed_cases():
             if what == 'props':
@@ -382,7 +463,9 @@ def run(task, ctx):
 
 
 def replay(case, ctx):
-    if case['kind'] == 'order':
+    if case['kind'] == 'subclasses':
+        check_subclasses(ctx)
+    elif case['kind'] == 'order':
         check_order(ctx, case['variant'])
     elif case['kind'] == 'method':
         check_method(ctx, spec_table.BY_NAME[case['method']],
